@@ -7,18 +7,20 @@ from impl import pipeline, recbuilder
 from props import codegen_common as cg
 
 LEVEL = 'proof'
-MODULES = ['Pysmi.Props.C04', 'Pysmi.Pins.SkelC04']
-LAKE_TARGETS = ['Pysmi.Props.C04', 'Pysmi.Pins.SkelC04']
+MODULES = ['Pysmi.Props.C04', 'Pysmi.Props.C04Order', 'Pysmi.Pins.SkelC04']
+LAKE_TARGETS = ['Pysmi.Props.C04', 'Pysmi.Props.C04Order', 'Pysmi.Pins.SkelC04']
 THEOREMS = ['Pysmi.Pins.SkelC04.pin_pysnmpGenCode', 'Pysmi.Pysnmp.C04_sort_perm', 'Pysmi.Pysnmp.C04_sort_stable', 'Pysmi.Pysnmp.C04_sort_sorted', 'Pysmi.Pysnmp.C04_types_keep_dependency_order',
             'Pysmi.Pysnmp.C04_imports_expand', 'Pysmi.Generated.Pysnmp.C04_exported_classes', 'Pysmi.Generated.Pysnmp.C04_export_filter_complete',
-            'Pysmi.Generated.Pysnmp.pin_smiObjects', 'Pysmi.Generated.Text.C04_setter_keys', 'Pysmi.Generated.Text.C04_status_written']
+            'Pysmi.Generated.Pysnmp.pin_smiObjects', 'Pysmi.Generated.Text.C04_setter_keys', 'Pysmi.Generated.Text.C04_status_written',
+            'Pysmi.Symtab.C04_parents_before', 'Pysmi.Symtab.C04_declared_parent_earlier', 'Pysmi.Symtab.C04_before_survives_filter',
+            'Pysmi.Generated.Pysnmp.C04_types_one_pass']
 TECHNIQUE = ('Lean 4 theorems about a model of the pure steps of PySnmpCodeGen.genCode (SMI_OBJECTS expansion of imports, dotted OID -> '
              'tuple, stable sort by OID: permutation, sortedness, stability, round trip) and kernel-decided facts about the exported-class '
              'tuple extracted from the template on every run; the emitted Python itself is validated by execution: every generated module is '
              'compiled and executed against a recording builder and compared with the JSON backend and the generator\'s ground truth; '
              'imports between generated modules are checked against the exporting module\'s exportSymbols')
 LEVEL_TEXT = ('Proved in Lean: sorting the records by OID is a stable permutation (nothing lost or duplicated; records without OID keep '
-              'their dependency order, so a derived type never precedes its base), the dotted-string -> tuple conversion loses nothing, the '
+              'their dependency order, so a derived type never precedes its base), on success of the symbol pass every symbol of the emission order has each parent imported, a row type or earlier in the order (C04_parents_before, for any depth of forward references) and a filter of the order keeps that (C04_before_survives_filter), the template defines plain types and textual conventions in one pass that precedes the objects (C04_types_one_pass, regenerated), the dotted-string -> tuple conversion loses nothing, the '
               'import expansion keeps every imported symbol; decided on the regenerated template: every record class the property names is '
               'in the export filter, and every set...() call of the template is given the record key of that meaning (status, maxaccess, units, '
               'objects, indices ...; C04_setter_keys), every block whose records carry a status / access writes it. NOT expressible as a theorem short of formalising Python and Jinja: that the rendered text is valid '
